@@ -99,6 +99,7 @@ struct last_resp {
 	uint16_t cr_session;
 	unsigned int target_mask; /* data set the response leads to if applied */
 	bool valid; /* a response the client must accept */
+	bool refused; /* its first PDU carries a version the client must refuse: nothing of it counts as an answer */
 	uint8_t ver;
 	size_t nbytes;
 };
@@ -710,6 +711,7 @@ static void respond(int kind, const struct rpdu *q)
 		} else if (pv != MON.v) {
 			MON.refused_pending = true;
 			LAST.valid = false;
+			LAST.refused = true;
 		}
 		if (kind == RS_WRONGVER_MID)
 			MON.refused_pending = true;
@@ -855,7 +857,7 @@ static void hook_client_pdu(const struct rpdu *p)
 		ev("cache:%s", RESP_NAME[kind]);
 		respond(kind, p);
 		/* C05/C13 model updates that depend on what was answered */
-		if (kind == RS_CACHE_RESET || LAST.form == 'R' || kind == RS_ERR_NODATA) {
+		if ((kind == RS_CACHE_RESET || LAST.form == 'R' || kind == RS_ERR_NODATA) && !LAST.refused) {
 			MON.have = false;
 			MON.reset_cause = true;
 		}
@@ -1196,6 +1198,9 @@ static void setup_menus(void)
 		menu_add(RS_DUP);
 		menu_add(RS_WD_UNKNOWN);
 		menu_add(RS_CUT_TIMEOUT);
+		/* session and serial across a change of the protocol version */
+		menu_add(RS_ERR_UNSUPP_LOWER);
+		menu_add(RS_V0_ANSWER);
 		OPEN_MENU[NOPEN++] = O_FAIL_SLOW;
 		IDLE_MENU[NIDLE++] = I_STOP;
 		IDLE_MENU[NIDLE++] = I_NOTIFY;
